@@ -115,13 +115,15 @@ SetToSeq3(S) == SelectSeq(<<"errtok", "unbalanced", "brackets">>, LAMBDA x : x \
 (*   lone-hash-eof  the last line the scanner gets is exactly `#` without a  *)
 (*                  newline                                                  *)
 (*   esc-high       an escape character directly followed by a byte >= 0x80  *)
+(*                  in the character stream the scanner reads                *)
 (*   nul            the text has a NUL byte                                  *)
 (*   quit           a system-command line that begins with #quit             *)
 HighChars == {ChrTable[b] : b \in 128..255}
 Features(text) ==
   LET sl == IncludeAsRead(text)
   IN  (IF Len(sl) > 0 /\ sl[Len(sl)].sys /\ sl[Len(sl)].txt = <<"#">> THEN {"lone-hash-eof"} ELSE {})
-      \cup (IF \E i \in 1..(Len(text) - 1) : text[i] = "_" /\ text[i + 1] \in HighChars THEN {"esc-high"} ELSE {})
+      \cup (LET ch == Flat(sl).ch       \* the characters the scanner walks over (a NUL-cut line runs into the next one)
+            IN  IF \E i \in 1..(Len(ch) - 1) : ch[i] = "_" /\ ch[i + 1] \in HighChars THEN {"esc-high"} ELSE {})
       \cup (IF \E i \in 1..Len(text) : text[i] = NUL THEN {"nul"} ELSE {})
       \cup (IF \E i \in 1..Len(sl) : sl[i].sys /\ Len(sl[i].txt) >= 5 /\ SubSeq(sl[i].txt, 1, 5) = <<"#", "q", "u", "i", "t">>
             THEN {"quit"} ELSE {})
